@@ -397,7 +397,41 @@ pub fn gen_source(seed: u64, i: usize) -> (String, usize) {
     k.hex = r.chance(1, 3);
     k.logs = false;
     k.array_init_permille = 300;
-    let d = gen::gen_single_def(&mut r, &k);
+    // sizes: now and then a definition long enough for several hundred passes per fixpoint,
+    // either long all over or an ordinary body behind a long straight-line prefix
+    let mut r_size = base.sub("size");
+    let size_mode = if r_size.chance(1, 12) { 1 + r_size.usize(2) } else { 0 };
+    if size_mode == 1 {
+        k.max_stmts = 45 + r.usize(45);
+        k.max_depth = 1 + r.usize(2);
+    }
+    let mut d = gen::gen_single_def(&mut r, &k);
+    if size_mode == 2 {
+        let n = 70 + r_size.usize(90);
+        let mut pre = String::from("var pfx0 = 1 ;");
+        for j in 1..n {
+            let a = r_size.usize(j);
+            let b = r_size.usize(j);
+            let op = *r_size.pick(&["+", "*", "-"]);
+            pre.push_str(&format!(" var pfx{j} = pfx{a} {op} pfx{b} + {j} ;"));
+        }
+        // ... and, in templates, the array idiom right behind it (still in the entry block)
+        if let Some(inp) = d.inputs.iter().find(|p| p.dims.is_empty()) {
+            if d.is_template() {
+                let s = &inp.name;
+                let deeps = [format!("{s} * {s} * {s}"), format!("{s} * {s}"), format!("{s} * pfx1 * {s} * {s}")];
+                let deep = deeps[r_size.usize(3)].clone();
+                let first = r_size.usize(2);
+                let between = *r_size.pick(&["if ( pfx2 > 64 ) { log ( pfx2 ) ; }", "for ( var pfi = 0 ; pfi < 2 ; pfi ++ ) { log ( pfi ) ; }", ""]);
+                pre.push_str(&format!(
+                    " var pfa [ 2 ] ; pfa [ {first} ] = {deep} ; {between} pfa [ {} ] = 1 ; signal pfs ; pfs <-- pfa [ {} ] ;",
+                    1 - first,
+                    r_size.usize(2)
+                ));
+            }
+        }
+        d.body.insert(0, gen::Stmt::Raw(pre.split_whitespace().map(|t| t.to_string()).collect()));
+    }
     (gen::render_def(&d), curve_idx)
 }
 
@@ -418,6 +452,7 @@ struct DefRes {
     pass_claims: usize,
     relations_judged: usize,
     division_claims: usize,
+    long_runs: usize,
 }
 
 #[derive(Clone)]
@@ -433,7 +468,7 @@ fn one(scratch: &std::path::Path, seed: u64, i: usize, keys: usize, pairs: usize
     let path = scratch.join(format!("def{i}.circom"));
     let (src, curve_idx) = gen_source(seed, i);
     let prelude = gen_prelude(seed, i);
-    let mut res = DefRes { evals: 0, usable: false, reads: 0, cut_points: 0, pair_cuts: 0, stalls_fired: 0, backsteps_fired: 0, wall_reads: 0, value_claims: 0, degree_claims: 0, violation: None, sim_ns: 0, facts_lost_by_cut: 0, pass_claims: 0, relations_judged: 0, division_claims: 0 };
+    let mut res = DefRes { evals: 0, usable: false, reads: 0, cut_points: 0, pair_cuts: 0, stalls_fired: 0, backsteps_fired: 0, wall_reads: 0, value_claims: 0, degree_claims: 0, violation: None, sim_ns: 0, facts_lost_by_cut: 0, pass_claims: 0, relations_judged: 0, division_claims: 0, long_runs: 0 };
     let mut rk = Rng::new(seed).sub_n("C20-sched", i as u64);
     for _ki in 0..keys {
         let key = rk.bytes16();
@@ -493,8 +528,19 @@ fn one(scratch: &std::path::Path, seed: u64, i: usize, keys: usize, pairs: usize
         if res.violation.is_some() {
             return res;
         }
-        // every single cut index
-        for j in 1..reads {
+        // every single cut index (a sample of them when there are hundreds)
+        let cut_indices: Vec<usize> = if reads <= 200 {
+            (1..reads).collect()
+        } else {
+            let mut v: Vec<usize> = (0..64).map(|_| 1 + rk.usize(reads - 1)).collect();
+            v.sort();
+            v.dedup();
+            v
+        };
+        if reads > 256 {
+            res.long_runs += 1;
+        }
+        for j in cut_indices {
             let s = Sched { stalls: vec![(j, 11_000_000_000 + rk.below(3_600_000_000_000) as i64)], wall_back: vec![], permille: 0, label: format!("stall at clock read {j} of {reads}") };
             if let Some((e, _)) = run(&s, &mut res) {
                 res.cut_points += 1;
@@ -645,6 +691,7 @@ pub fn run(env: &Env) -> i32 {
         &[
             ("cut run compared with the uncut run (findings of the passes)", results.iter().map(|r| r.relations_judged).sum::<usize>()),
             ("division without warning judged as a constant-divisor claim (cut runs)", results.iter().map(|r| r.division_claims).sum::<usize>()),
+            ("definition with more than 256 clock reads (passes)", results.iter().map(|r| r.long_runs).sum::<usize>()),
             ("time box fired", results.iter().map(|r| r.stalls_fired).sum::<usize>()),
             ("a cut left fewer facts than the fixpoint", results.iter().map(|r| r.facts_lost_by_cut).sum::<usize>()),
             ("constant claim judged", results.iter().map(|r| r.value_claims).sum::<usize>()),
